@@ -230,4 +230,152 @@ theorem childs_entry {m : List Ins} {ex : List Exc} {b : Block} {c : Nat × Int 
         exact ⟨rfl, nb, hnb, rfl, Or.inl ⟨h1, h2⟩⟩
       · simp at ht
 
+
+/-! ### specification-side payload, leaders from the specification's targets (audit follow-up) -/
+
+/-- with positive lengths the instruction the disassembly reports at an offset is the one `get_ins_off` returns -/
+theorem insOffFrom_of_split : ∀ (pre : List Ins) (s : Nat) (d : Ins) (post : List Ins),
+    (∀ i ∈ pre, 2 ≤ i.len) →
+    insOffFrom s (pre ++ d :: post) ((s + lenSum pre : Nat) : Int) = some (s + lenSum pre, d) := by
+  intro pre
+  induction pre with
+  | nil => intro s d post _; simp [insOffFrom, lenSum]
+  | cons x pre ih =>
+    intro s d post h
+    have hx := h x List.mem_cons_self
+    have hne : ¬ ((s : Int) = ((s + lenSum (x :: pre) : Nat) : Int)) := by simp [lenSum]; omega
+    simp only [List.cons_append, insOffFrom, hne, ↓reduceIte]
+    have := ih (s + x.len) d post (fun i hi => h i (List.mem_cons_of_mem _ hi))
+    simpa [lenSum, Nat.add_assoc] using this
+
+theorem insOff_of_insnAt {m : List Ins} (hm : MinLen m) {o : Nat} {d : Ins} (h : InsnAtM m o d) :
+    insOff m (o : Int) = some (o, d) := by
+  obtain ⟨pre, post, hm', ho⟩ := h
+  rw [total_eq_lenSum] at ho
+  subst hm' ho
+  have := insOffFrom_of_split pre 0 d post (fun i hi => hm i (by simp [hi]))
+  simpa [insOff] using this
+
+/-- SPEC side: the disassembly reports the switch payload `d` (a PackedSwitch or SparseSwitch object)
+    at byte offset `a` — stated with `Spec.Cfg.InsnAt` only, no lookup function, no default -/
+def PayloadAt (m : List Ins) (a : Int) (d : Ins) : Prop :=
+  ∃ o : Nat, (o : Int) = a ∧ InsnAtM m o d ∧ (d.kind = 1 ∨ d.kind = 2)
+
+/-- every switch instruction's encoded offset is the offset of a switch payload (verifier requirement) -/
+def SwitchesHavePayload (m : List Ins) : Prop :=
+  ∀ p ∈ withOff 0 m, flowOf p.2.op = Flow.switch → ∃ d, PayloadAt m ((p.1 : Int) + 2 * p.2.refOff) d
+
+theorem rawTargets_of_payloadAt {m : List Ins} (hm : MinLen m) {a : Int} {d : Ins} (h : PayloadAt m a d) :
+    rawTargets m a = d.targets := by
+  obtain ⟨o, ho, hat, hk⟩ := h
+  unfold rawTargets
+  rw [← ho, insOff_of_insnAt hm hat]
+  simp [hk]
+
+/-- every offset the specification lists as a successor of a control-transfer instruction is a
+    `determineNext` value (so it is in the list `l` of `_create_basic_block`) -/
+theorem spec_succ_mem_next {m : List Ins} (hal : Aligned m) {idx : Nat} {i : Ins}
+    (hi : (idx, i) ∈ withOff 0 m) (hop : i.op ∈ basicOps) {x : Int}
+    (hx : x ∈ succ i.op idx i.len i.refOff (rawTargets m ((idx : Int) + 2 * i.refOff))) :
+    x ∈ next m idx i := by
+  obtain ⟨t1, t2, t3, t4⟩ := flow_table i.op hop
+  cases hf : flowOf i.op with
+  | fall => exact absurd hf ((control_flow i.op).mp (by rw [← basic_eq_control]; exact hop))
+  | exit => simp [succ, hf] at hx
+  | goto =>
+    obtain ⟨a1, a2⟩ := t2 hf
+    simp [succ, hf] at hx
+    simp [next, a1, a2]; omega
+  | cond =>
+    obtain ⟨a1, a2, a3⟩ := t3 hf
+    simp [succ, hf] at hx
+    simp [next, a1, a2, a3]; omega
+  | switch =>
+    obtain ⟨a1, a2, a3, a4⟩ := t4 hf
+    have hpad := hal (idx, i) hi a4
+    simp only at hpad
+    have he : i.refOff * 2 + (idx : Int) = (idx : Int) + 2 * i.refOff := by omega
+    rw [he] at hpad
+    simp only [next, a1, a2, a3, a4, Bool.false_eq_true, ↓reduceIte, he, hpad, Int.add_zero, payloadTargets_raw]
+    simp only [succ, hf, List.mem_cons] at hx ⊢
+    rw [mem_map_congr (f := fun t => t * 2 + (idx : Int)) (g := fun t => (idx : Int) + 2 * t) (by intro t; omega)]
+    exact hx
+
+/-- `determineNext`'s switch case for ANY alignment: fall-through, then the case targets of whatever
+    switch payload the disassembly has at the padded offset `a + switchPad a` -/
+theorem next_switch_general (m : List Ins) (idx : Nat) (i : Ins) (hop : i.op ∈ basicOps)
+    (hf : flowOf i.op = Flow.switch) :
+    next m idx i = ((idx + i.len : Nat) : Int) ::
+      (rawTargets m (i.refOff * 2 + (idx : Int) + switchPad (i.refOff * 2 + (idx : Int)))).map
+        (fun t => t * 2 + (idx : Int)) := by
+  obtain ⟨a1, a2, a3, a4⟩ := (flow_table i.op hop).2.2.2 hf
+  simp only [next, a1, a2, a3, a4, Bool.false_eq_true, ↓reduceIte, payloadTargets_raw]
+
+/-- the padding rounds the encoded offset up to the next multiple of the alignment constant -/
+theorem switchPad_spec (a : Int) : 0 ≤ switchPad a ∧ switchPad a < 4 ∧ (a + switchPad a) % 4 = 0 ∧
+    (switchPad a = 0 ↔ a % 4 = 0) := by
+  unfold switchPad
+  have : (payloadAlign : Int) = 4 := by decide
+  simp only [this]
+  split <;> omega
+
+/-- handler address → handler block: the block `ExceptionAnalysis` attaches is the block starting there -/
+theorem handler_block_of {m : List Ins} {ex : List Exc} (hm : MinLen m) {e : Exc} (he : e ∈ ex)
+    {h : Option Nat × Nat} (hh : h ∈ e.handlers) (ho : InsnOffsetM m h.2) :
+    ∃ b ∈ blocks m ex, b.start = h.2 ∧ getBlock (blocks m ex) (h.2 : Int) = some b := by
+  obtain ⟨b, hb, hs⟩ := leader_block (handler_mem_leaders he hh) ho
+  have hpos := blocks_pos hm b hb
+  exact ⟨b, hb, hs, getBlock_of_mem (blocks_chain m ex) (blocks_pos hm) hb (by omega) (by omega)⟩
+
+
+theorem withOff_append : ∀ (a b : List Ins) (s : Nat),
+    withOff s (a ++ b) = withOff s a ++ withOff (s + lenSum a) b := by
+  intro a
+  induction a with
+  | nil => intro b s; simp [withOff, lenSum]
+  | cons x a ih => intro b s; simp [withOff, lenSum, ih, Nat.add_assoc]
+
+theorem chain_withOff : ∀ (bs : List Block) (s e : Nat), Chain s bs e →
+    withOff s (bs.flatMap (·.insns)) = bs.flatMap (fun b => withOff b.start b.insns) := by
+  intro bs
+  induction bs with
+  | nil => intro s e _; simp [withOff]
+  | cons a bs ih =>
+    intro s e h
+    obtain ⟨ha, _, hch⟩ := h
+    simp only [List.flatMap_cons, withOff_append]
+    rw [← ha, ← ih _ _ hch]
+    rfl
+
+/-- every (offset, instruction) pair of the method lies in exactly the block that holds it -/
+theorem mem_block_of_mem_stream {m : List Ins} {ex : List Exc} {idx : Nat} {i : Ins}
+    (hi : (idx, i) ∈ withOff 0 m) : ∃ b ∈ blocks m ex, (idx, i) ∈ withOff b.start b.insns := by
+  have h := chain_withOff _ _ _ (blocks_chain m ex)
+  rw [blocks_flatten] at h
+  rw [h] at hi
+  simpa [List.mem_flatMap] using hi
+
+/-- a BasicOPCODES instruction is the last of its block, which ends right after it -/
+theorem branch_ends_block {m : List Ins} {ex : List Exc} {idx : Nat} {i : Ins}
+    (hi : (idx, i) ∈ withOff 0 m) (hbr : isBranch i = true) :
+    ∃ b ∈ blocks m ex, b.insns.getLast? = some i ∧ b.lastIdx = idx ∧ b.stop = idx + i.len := by
+  obtain ⟨b, hb, hmem⟩ := mem_block_of_mem_stream (ex := ex) hi
+  obtain ⟨p1, p2, hl, ho⟩ := (mem_withOff_iff _ _ _ _).mp hmem
+  have hlast := splitAux_branch_last (isLeader (leaders m ex)) isBranch m 0 ⟨0, []⟩ (by simp) b hb
+  have hp2 : p2 = [] := by
+    by_cases h : p2 = []
+    · exact h
+    · exfalso
+      have : i ∈ b.insns.dropLast := by
+        rw [hl, List.dropLast_append_of_ne_nil (by simp), List.dropLast_cons_of_ne_nil h]
+        simp
+      have := hlast i this
+      simp [hbr] at this
+  subst hp2
+  have hg : b.insns.getLast? = some i := by rw [hl]; simp
+  have hstop : b.stop = idx + i.len := by simp [Block.stop, hl, lenSum_append, lenSum, ho]; omega
+  refine ⟨b, hb, hg, ?_, hstop⟩
+  have := lastIdx_add_len hg
+  omega
+
 end AgVerif.Cfg
